@@ -104,7 +104,10 @@ def correspondence(ctx):
             if isinstance(r, core.ImplError):
                 bad.append({"op": op, "input": inp, "impl": repr(r)})
                 continue
-            W = np.asarray(w.weights, dtype=float)
+            W = core.impl(lambda: np.asarray(w.weights, dtype=float))  # lazily evaluated for Dask input: may still raise here
+            if isinstance(W, core.ImplError):
+                bad.append({"op": op, "input": inp, "impl": repr(W)})
+                continue
             if not core.close(cW, W, 1e-7, tol_for(cW)):
                 bad.append({"op": op, "input": inp, "model": cW, "impl": W})
             elif op == "wccn:fit_numpy":
